@@ -7,6 +7,11 @@ ALL = ["C%02d" % i for i in range(1, 21)]
 
 # id -> (category, technique, level text, level note, design ref, engine)
 CHECKS = {
+ "C15": ("model_checking",
+         "exhaustive codec grid on the real framing functions + controlled-scheduler exploration of dispatch with raw invalid frames",
+         "Codec: for all five multiplexer kinds every (channel, payload) of a boundary grid (empty/1/2-byte/127/128-byte/0x80-leading/NUL-containing strings; 0, 1, 127, 128, 2^14+-1, 2^16-1, 2^32-1, 2^63, 2^64-1; nil/empty/1-2 byte/frame-shaped payloads) must round-trip, all frames must be pairwise distinct and appending bytes must never change the parsed channel; every byte string of length <=4 over {00,01,02,7f,80,ff} plus 1-10 byte varint prefixes is fed to each demux (must not panic). Dispatch: the real muxes with every explored subset of three channels open (incl. the zero-value channel), a remote mux telling or asking on all three and a raw peer injecting invalid frames as tells and asks, all schedules within the bound: each swarm sees only what was sent on its channel, closed channels get nothing, invalid frames are answered by nobody.",
+         "Channel ids/payloads beyond the grids; dispatch runs with preemption bound 0 (quick) / 1 (thorough).",
+         "5/C15", "gosched"),
  "C18": ("model_checking",
          "explicit-state BFS over operation sequences on the real Cache vs a reference map",
          "Every put/update/delete/expire/tick sequence over small key/time universes (incl. the constructor's boundary max==8*len*min) is executed on the real kademlia.Cache and compared with a reference map after every operation; states deduplicated by reference content + private bucket dump; exhaustive (closure) for the boundary configurations, depth-bounded for the TTL ones.",
